@@ -25,6 +25,7 @@ type c16RaceRound struct {
 	Trees      []c16RaceTree `json:"trees"`
 	GoMaxProcs int           `json:"gomaxprocs"`
 	Repeat     int           `json:"repeat"`
+	DelayMs    []int         `json:"delay_ms,omitempty"`
 }
 
 // c16Files renders the tree of c16.go as a path -> content map (for the separate -race process).
@@ -119,7 +120,7 @@ func genRaceTree16(g *Rng, explicitVersion bool, size int, cfgTag string, wantDe
 				}
 			}
 		}
-		dirs := []string{"namespace", "labels", "annotations", "prefix", "suffix", "images", "replicas"}
+		dirs := []string{"namespace", "labels", "templatelabels", "annotations", "prefix", "suffix", "images", "replicas"}
 		n := 1 + g.Intn(4)
 		used := map[string]bool{}
 		for i := 0; i < n; i++ {
@@ -202,8 +203,9 @@ func c16ParseRaces(stderr string) []c16RaceReport {
 }
 
 const (
-	c16OpenapiPkg = "sigs.k8s.io/kustomize/kyaml/openapi."
-	c16MapFatal   = "C16/fatal-concurrent-map-access"
+	c16OpenapiPkg           = "sigs.k8s.io/kustomize/kyaml/openapi."
+	c16UnknownVersionPoison = "C16/concurrent-build-disturbed-by-unknown-openapi-version"
+	c16MapFatal             = "C16/fatal-concurrent-map-access"
 )
 
 // c16RaceClass: no race pair is listed any more — both confirmed races are repaired in /repo (db2770f: read lock in
@@ -298,13 +300,14 @@ type c16RaceSpecRound struct {
 	Trees      []*c16Tree `json:"trees"`
 	GoMaxProcs int        `json:"gomaxprocs"`
 	Repeat     int        `json:"repeat"`
+	DelayMs    []int      `json:"delay_ms,omitempty"` // per tree: pause before each of its builds
 }
 
 // c16JobOf renders a spec for the driver and builds every tree alone (fresh state, this process).
 func c16JobOf(spec c16RaceSpec) c16RaceJob {
 	job := c16RaceJob{}
 	for _, sr := range spec.Rounds {
-		rd := c16RaceRound{GoMaxProcs: sr.GoMaxProcs, Repeat: sr.Repeat}
+		rd := c16RaceRound{GoMaxProcs: sr.GoMaxProcs, Repeat: sr.Repeat, DelayMs: sr.DelayMs}
 		explicit := false
 		var alone []string
 		for _, t := range sr.Trees {
@@ -330,7 +333,7 @@ func c16JobOf(spec c16RaceSpec) c16RaceJob {
 //	round 1 has the shape that makes the unlocked namespace-map read overlap with another build's initSchema:
 //	        one small tree, the others large;
 //	further rounds are random mixes of 2..16 trees.
-func c16GenRaceSpec(g *Rng, rounds int, explicit bool, tag string) c16RaceSpec {
+func c16GenRaceSpec(g *Rng, rounds int, explicit, unknownVer bool, tag string) c16RaceSpec {
 	spec := c16RaceSpec{}
 	for i := 0; i < rounds; i++ {
 		n := 4 + g.Intn(13)
@@ -369,7 +372,33 @@ func c16GenRaceSpec(g *Rng, rounds int, explicit bool, tag string) c16RaceSpec {
 			if g.Chance(75) {
 				cfgTag = fmt.Sprintf("%sr%dk%d", tag, i, k)
 			}
-			rd.Trees = append(rd.Trees, genRaceTree16(g.Fork(), explicit && (k%2 == 1), size, cfgTag, g.Chance(50), i == 0))
+			t := genRaceTree16(g.Fork(), explicit && (k%2 == 1), size, cfgTag, g.Chance(50), i == 0)
+			// mixed sets: some builds FAIL inside MakeCustomizedResMap (missing resource file, patch without target)
+			// while the others are in the middle of their strategic merges — a failing build must not disturb them
+			if (i == 0 && k > 0 && g.Chance(30)) || (i > 0 && g.Chance(12)) || (i == 2 && unknownVer && g.Chance(25)) {
+				kinds := []string{"missing-file", "bad-patch"}
+				if unknownVer {
+					// only in designated processes: such a round is where the known finding
+					// C16/concurrent-build-disturbed-by-unknown-openapi-version shows, and it must not mask other rounds
+					kinds = []string{"unknown-version", "missing-file", "unknown-version"}
+				}
+				t.Fail = g.Pick(kinds)
+				if t.Fail == "unknown-version" {
+					// rejected by SetSchema itself (before MakeCustomizedResMap): must leave the parsed schema alone too.
+					// Such a build is over within a millisecond; in the repeated round (2) it arrives late and staggered (pause
+					// before each of its runs) so that the rejection lands while the other builds are past their
+					// initSchema(); in the cold rounds it starts with the others (where the known finding shows)
+					t.Fail = ""
+					t.Ver = strp("v9.9.9")
+					if i == 2 {
+						for len(rd.DelayMs) < k {
+							rd.DelayMs = append(rd.DelayMs, 0)
+						}
+						rd.DelayMs = append(rd.DelayMs, 150+g.Intn(900))
+					}
+				}
+			}
+			rd.Trees = append(rd.Trees, t)
 		}
 		spec.Rounds = append(spec.Rounds, rd)
 	}
@@ -417,7 +446,19 @@ func c16EvalRace(r *Run, spec c16RaceSpec, job c16RaceJob, outs [][][]string, st
 				r.AddEval(fmt.Sprintf("race-%d-%d-%s", ri, ti, job.Alone[ri][ti]), true)
 				if o != job.Alone[ri][ti] {
 					r.Count("concurrent_result", "differs")
-					r.Violation(OracleViolation{Law: "concurrent_equals_alone", Class: "C16/concurrent-result-differs",
+					cls := "C16/concurrent-result-differs"
+					// the one listed shape (finding): the round contains a build that names an `openapi: version` which is
+					// not built in. SetSchema stores that version BEFORE rejecting it; a concurrent build whose initSchema
+					// runs in between tries to load it (nil asset function: panic, schemaInit left set, nothing parsed) and
+					// every build of the round then works without schema (lists replaced) or panics
+					if ri < len(spec.Rounds) {
+						for _, t := range spec.Rounds[ri].Trees {
+							if t.Schema < 0 && t.Ver != nil && *t.Ver != "" && *t.Ver != "v1.21.2" {
+								cls = c16UnknownVersionPoison
+							}
+						}
+					}
+					r.Violation(OracleViolation{Law: "concurrent_equals_alone", Class: cls,
 						Detail: fmt.Sprintf("round %d tree %d: concurrent output differs from the output of the tree built alone\n--- alone\n%s\n--- concurrent\n%s", ri, ti, job.Alone[ri][ti], o),
 						Replay: replay()})
 				} else {
@@ -497,11 +538,15 @@ func c16RaceSearch(r *Run, g *Rng, procs int, tier string) error {
 		// the race detector reports a given pair of stacks once per process: many short processes
 		// processes whose trees spell out the default version get a third, random-mix round with repetitions: the
 		// re-initialisation race needs builds that are past their own initSchema() while another one re-arms it
+		explicit := p%3 == 2
+		// never both in one process: a stored unknown version followed by an explicit valid one re-arms initSchema on
+		// the unchanged tree (a consequence of the known finding) and would show up as an unlisted race pair
+		unknownVer := p%4 == 1 && !explicit
 		nr := 2
-		if p%3 == 2 {
-			nr = 3
+		if explicit || unknownVer {
+			nr = 3 // also for the unknown-version process: rejected SetSchema calls keep arriving while others are mid-merge
 		}
-		specs = append(specs, c16GenRaceSpec(g.Fork(), nr, p%3 == 2, fmt.Sprintf("p%d", p)))
+		specs = append(specs, c16GenRaceSpec(g.Fork(), nr, explicit, unknownVer, fmt.Sprintf("p%d", p)))
 	}
 	budget, perProc := 75*time.Second, 60*time.Second
 	if tier == "thorough" {
@@ -534,6 +579,9 @@ func c16RaceSearch(r *Run, g *Rng, procs int, tier string) error {
 				}
 				for _, c := range spec.Rounds[ri].Trees[ti].Cfg {
 					r.Count("race_tree_cfg", c.Dir)
+				}
+				if f := spec.Rounds[ri].Trees[ti].Fail; f != "" {
+					r.Count("race_tree_fail", f)
 				}
 				if len(spec.Rounds[ri].Trees[ti].Cfg) == 0 {
 					r.Count("race_tree_cfg", "none")
